@@ -213,7 +213,8 @@ def check_grad(case, ctx):
 @st.composite
 def nograd_case(draw):
     sc = draw(scenario(models=("linear", "mlp", "recurrent", "bs"), dtype="any", min_steps=2, max_steps=5, max_paths=6))
-    if sc["ul"]["type"] == "VasicekRate":
+    if sc["ul"]["type"] in ("VasicekRate", "CIRRate"):
+        # ratios / logs of a rate that can touch zero or go negative give NaN samples, which no criterion accepts
         sc["ul"]["type"], sc["ul"]["params"] = "BrownianStock", {}
     sc["n_times"] = draw(st.integers(1, 2))
     sc["crit"] = draw(st.sampled_from(["entropic_rm", "oce", "oce", "es"]))  # OCE owns a trainable parameter
